@@ -9,8 +9,11 @@ Everything here derives paths from this file's location, never from the cwd.
 import fcntl, hashlib, json, os, random, re, shlex, shutil, subprocess, sys, time
 
 ROOT = os.path.dirname(os.path.dirname(os.path.abspath(__file__)))
-REPO = os.environ.get("VERIF_REPO", "/repo")
-CACHE = os.path.join(ROOT, ".cache")
+REPO = os.path.abspath(os.environ.get("VERIF_REPO", "/repo"))
+# The C-side cache is per source tree, so that a scratch worktree (VERIF_REPO=/tmp/wt ./check Cnn), used to try
+# a mutation, never disturbs the builds of /repo that other checks are using.
+CACHE = os.path.join(ROOT, ".cache") if REPO == "/repo" else os.path.join(ROOT, ".cache", "alt-" + hashlib.sha1(REPO.encode()).hexdigest()[:10])
+LEANCACHE = os.path.join(ROOT, ".cache")
 LEAN = os.path.join(ROOT, "lean")
 GUARD = "TUKAANI_PROJECT_XZ_VERIF"
 NCPU = os.cpu_count() or 4
@@ -38,7 +41,7 @@ def sh(cmd, cwd=None, timeout=None, env=None, inp=None):
 
 class Lock:
     def __init__(self, name):
-        self.path = os.path.join(CACHE, "lock-" + name)
+        self.path = os.path.join(LEANCACHE if name == "lean" else CACHE, "lock-" + name)
 
     def __enter__(self):
         self.f = open(self.path, "w")
@@ -357,7 +360,7 @@ class Check:
 
     # -- failure protocol ------------------------------------------------------------------
     def replay_path(self, tag):
-        d = os.path.join(ROOT, "replays", self.pid)
+        d = os.path.join(ROOT if REPO == "/repo" else CACHE, "replays", self.pid)
         os.makedirs(d, exist_ok=True)
         self.replay_n += 1
         return os.path.join(d, "%s-seed%d-%s-%d.json" % (self.pid, self.seed, re.sub(r"[^\w.-]", "_", tag)[:60], self.replay_n))
@@ -499,8 +502,9 @@ class Check:
               "violations": len(self.violations),
               "known_findings_hit": [k for k, _ in self.known_hits],
               "broken_obligations": [b["name"] for b in self.broken]}
-        os.makedirs(os.path.join(ROOT, "evidence"), exist_ok=True)
-        p = os.path.join(ROOT, "evidence", self.pid + ".json")
+        evdir = os.path.join(ROOT, "evidence") if REPO == "/repo" else os.path.join(CACHE, "evidence")
+        os.makedirs(evdir, exist_ok=True)
+        p = os.path.join(evdir, self.pid + ".json")
         with open(p + ".tmp", "w") as f:
             json.dump(ev, f, indent=1, default=str)
         os.replace(p + ".tmp", p)
